@@ -6,7 +6,7 @@ from .. import env, coq, runner, tables
 LEVEL = 'proof'
 META = dict(
     text='Coq theorems (closed under the global context) over a hand-written Gallina model of measurement keys (path, name), key maps, scoped lookup of control keys, classical conditions and CircuitOperation with all its fields, written in the shape of the code (_mapped_any_loop: qubit map -> inverse for negative repetitions -> key map -> parameters; _mapped_single_loop: rescoping with the repetition id, then with parent path and extern keys; mapped_circuit with repetition ids vs plain repetition and deep recursion through Circuit.zip; the with_qubit_mapping / with_measurement_key_mapping / with_params / repeat(-1) / _with_rescoped_keys_ compositions pushed onto nested operations). Proved for every nesting depth, repetition count (positive or negative, non-zero), repetition ids, qubit/key/parameter maps and parent paths: the measurement keys and the qubits a nested operation reports equal those of its completely unrolled circuit; the unrolled circuit consists, moment by moment, of exactly the leaves a compositional semantics prescribes (which operation, inverted or not, on which qubits); key prefixing and key maps compose, control keys bind to the innermost enclosing bound measurement and never to a key bound later; remapping a condition changes only its key iff both replace_key implementations keep the other fields (two booleans read off the working tree on every run: both true since the F2 fix, so the faithful-remapping theorem is live on the tree and stops compiling if replace_key drops fields again); constructor compositions; repeat_until = least number of passes (under fuel). The zero-repetition case is refuted by a proved witness (F7). On every run the model is evaluated with vm_compute on generated nestings (depth 0-3) and compared exactly with the implementation: mapped_circuit shallow/deep moment by moment, measurement/control key sets, parameter names, qubits, is_measurement, touched key names and the fields after one further remapping of each kind; spec-level oracles on the real code compare the wrapped operation with its unrolled circuit by unitary (incl. the single-qubit fast path), deterministic simulation records, exact outcome distribution (scripted seed object enumerating every measurement branch), repeat_until loop counts, scoping templates with independently known outcomes, decompose / unroll_circuit_op* and remapping-commutes-with-unrolling. repeat_until loops at any nesting level (condition over a key of the loop body and a key measured in an enclosing sub-circuit that rescopes keys: repetition ids, parent paths, further enclosing levels, same-named top-level keys) are judged against a loop-free flat reference: each loop becomes k plain repetitions of its body followed by a classical control with the loop condition on a fresh ancilla, whose records certify that k is the do-while count; the loops\' control keys (per instance of the partial unrolling and of the whole circuit) and the simulation records of the wrapped and partially unrolled circuit must equal the reference (fixed grid for every seed + generated nests); two theorems back this oracle: one pass of a loop over body ++ [probe] is the pass over the body followed by the probe carrying exactly the mapped repeat_until condition (C12_until_scoped_as_last_control), and a further key map renames every key name the loop condition reads (C12_until_names_under_key_map; composing over the names of the body only, as the implementation does, is refuted: F20). Classically controlled SUB-CIRCUITS (a ClassicallyControlledOperation whose sub-operation is a CircuitOperation that itself holds classically controlled gates; Circ/CtlSub.v models its three key transformations - conditions AND controlled operation -, its flat form = the unrolled sub-circuit with the conditions of the control on every operation, and its control keys): proved that the flat form commutes with rescoping / key maps / prefixing condition by condition (C12_ctl_flat_*), that a user-level control key looked up from inside a rescoped operation finds exactly the binding of the enclosing scope (C12_ctl_inner_key_binding), and that transforming control and controlled operation piecewise and then unrolling equals rescoping the flat form (C12_ctl_rescope_then_unroll; a rescoping that stops at the conditions of the control is refuted by a witness).  On every run: the model vs the implementation on controlled sub-circuits taken alone (rescoped / key-mapped / prefixed pair, flat form, control keys), each of them decomposed after a key map / after rescoping vs the flat form transformed condition by condition with the positional definitions, and nests in which controlled sub-circuits sit inside enclosing sub-circuits that measure the keys the inner conditions read and rescope them (repetition ids, parent paths, key maps, further levels, a same-named top-level key; fixed grid for every seed + generated nests) vs the reference nest in which every controlled sub-circuit is written out as its unrolled operations carrying the controls: reported measurement / control keys, cirq.decompose and mapped_circuit + decompose (trace equivalence up to the order of conditions), simulation records of the wrapped and the decomposed circuit, and one further key map / key-path prefix / rescoping applied to both nests.  CONDITIONAL BLOCKS written with cirq.If (cirq.If(conds, CircuitOperation), the multi-operation form cirq.If(conds, op1, op2, ...), the layered forms If(c1, If(rest, S)) / If(c1, S.with_classical_controls(rest)) the constructor folds, and cirq.If over a single gate) are the same pair (conditions, operation) of Circ/CtlSub.v and go through every oracle of the controlled sub-circuits in each form (every fixed case alone in the plain form and in one cirq.If form, generated nests with half of the controls written as cirq.If, a fixed grid of blocks whose body holds controls on keys that are NOT among the conditions of the block - a key measured earlier in the enclosing sub-circuit, a key measured outside the nest, both - under six enclosing rescopings / key maps and three outer wrappers); additionally the circuit built from the operation SEQUENCE with the default insertion strategy (placement by the qubits and keys an operation reports) must simulate like the flat reference.  Circ/CondBlock.v: the folding of condition layers preserves flat form and control keys and commutes with the three key transformations (C12_if_fold_*), and a block over a non-empty body of gates reports, as a set, exactly the keys the operations of its flat form read (C12_block_control_keys_are_flat_reads; control keys taken from the conditions of the block alone are refuted by a witness).',
-    note='Trusted: Coq kernel; vf/checks/c12.py (building Cirq objects from case records, decoding Cirq objects back, printing Gallina literals, the Python oracles); vf/tables_c12.py. Leaves other than CircuitOperation are abstract (identifier, inversion flag, qubits, keys, conditions, one parameter) and are instantiated by six gate families, measurements and classically controlled gates; key equality is componentwise (path, name), equal to Cirq\'s string equality when no path component contains ":"; sympy conditions are restricted to five expression templates and modelled by simultaneous substitution (as the implementation does since the F13 fix); key-map / qubit-map collision checks of the with_* methods are not modelled (generated maps are injective); control keys and conditions of the unrolled circuit, parameter names and repeat_until are compared with the model but have no unrolling theorem; tagged CircuitOperations are covered by the simulation oracle only; classically controlled CircuitOperations and cirq.If blocks are modelled as the same pair (conditions, operation) outside the inductive type of operations (the model does not distinguish the two classes; a cirq.If over a single gate is the leaf with those conditions), so inside a nest they are judged against the reference nest with the controlled sub-circuit written out (the unrolling of the bare sub-circuit is taken from the implementation, where it never meets a controlled sub-circuit, and the reference nest is an ordinary nest of the kind the struct stream compares with the model); C12_ctl_rescope_then_unroll and C12_block_control_keys_are_flat_reads are stated for bodies of gates (one level), positive repetition counts, user-level keys and no extern keys; tagged sub-circuits under a cirq.If are not generated; a reference that reads a key nobody measures has no simulation outcome (counted, keys and unrolling still compared); with a zero-repetition operation in the nest the key sets are left to F7. the flat reference of nested repeat_until loops exists only when every instance of a loop needs the same number (<= 4) of passes (other cases are skipped and counted), and it trusts the scoping of a classical control placed at the end of the loop body (covered by the key theorems and the struct correspondence). known_findings/C12.json lists seven open signatures (F7, F14, F15, F16 x3, F18) and six fixed ones (F2 x2, F4, F13, F13b, F20).',
+    note='Trusted: Coq kernel; vf/checks/c12.py (building Cirq objects from case records, decoding Cirq objects back, printing Gallina literals, the Python oracles); vf/tables_c12.py. Leaves other than CircuitOperation are abstract (identifier, inversion flag, qubits, keys, conditions, one parameter) and are instantiated by six gate families, measurements and classically controlled gates; key equality is componentwise (path, name), equal to Cirq\'s string equality when no path component contains ":"; sympy conditions are restricted to five expression templates and modelled by simultaneous substitution (as the implementation does since the F13 fix); key-map / qubit-map collision checks of the with_* methods are not modelled (generated maps are injective); control keys and conditions of the unrolled circuit, parameter names and repeat_until are compared with the model but have no unrolling theorem; tagged CircuitOperations are covered by the simulation oracle only; classically controlled CircuitOperations and cirq.If blocks are modelled as the same pair (conditions, operation) outside the inductive type of operations (the model does not distinguish the two classes; a cirq.If over a single gate is the leaf with those conditions), so inside a nest they are judged against the reference nest with the controlled sub-circuit written out (the unrolling of the bare sub-circuit is taken from the implementation, where it never meets a controlled sub-circuit, and the reference nest is an ordinary nest of the kind the struct stream compares with the model); C12_ctl_rescope_then_unroll and C12_block_control_keys_are_flat_reads are stated for bodies of gates (one level), positive repetition counts, user-level keys and no extern keys; tagged sub-circuits under a cirq.If are not generated; a reference that reads a key nobody measures has no simulation outcome (counted, keys and unrolling still compared); with a zero-repetition operation in the nest the key sets are left to F7, and so is the simulation when the wrapped form fails on a missing key (the control on an operation whose unrolled form is empty is still evaluated; counted). the flat reference of nested repeat_until loops exists only when every instance of a loop needs the same number (<= 4) of passes (other cases are skipped and counted), and it trusts the scoping of a classical control placed at the end of the loop body (covered by the key theorems and the struct correspondence). known_findings/C12.json lists seven open signatures (F7, F14, F15, F16 x3, F18) and six fixed ones (F2 x2, F4, F13, F13b, F20).',
     technique='Rocq/Coq proof over an executable Gallina model + vm_compute correspondence against the implementation + differential simulation oracles (exact branch enumeration)',
 )
 
@@ -2207,6 +2207,9 @@ def ctl_summary(cirq, ops):
             if isinstance(o, cirq.ClassicallyControlledOperation)][:8]
 
 
+ZERO_SKIPS = dict(n=0)
+
+
 def ctl_nest_defect(cirq, V, prep, D, m2=None, path=(), bind=()):
     """('' | 'skip' | kind, detail): the nest D (with controlled sub-circuits) vs its reference nest without them."""
     R = inline_ctl(V, D)
@@ -2245,6 +2248,12 @@ def ctl_nest_defect(cirq, V, prep, D, m2=None, path=(), bind=()):
     for name, c in (('wrapped', lambda: wrapped), ('decomposed', lambda: cirq.Circuit(pre + [flatten_all(cirq, op), fin])),
                     ('program-order', program))[:3 if want[0] == 'ok' else 0]:
         g = attempt(lambda: records_of(cirq, c()))
+        if g[0] != 'ok' and 'missing' in str(g[2:]) and rec_has_zero(D):
+            # a control on an operation whose unrolled form is EMPTY (zero repetitions) is still evaluated by the wrapped form;
+            # when its key is one nobody measures (a key map onto an unmeasured name) the flat reference, which has lost the
+            # control together with the operations, has nothing to say: as for the key sets, left to F7
+            ZERO_SKIPS['n'] += 1
+            continue
         if g[:2] != want[:2]:
             return f'simulation-{name}', (f'{name} circuit: {g[1:]}, flat reference: {want[1:]}' + (
                 f'; the operation reports control keys {kset(cirq.control_keys(op))}, its flat reference reads '
@@ -2493,7 +2502,7 @@ def ctl_stream(ctx, cirq, V, n):
     for i, (I, cs, m, path, bind) in enumerate(tfixed):
         if over_time(ctx):
             break
-        for via in (('cco', VIAS[1 + i % 4]) if quick else VIAS):
+        for via in sorted({eff_via(V, I, cs, v) for v in (('cco', VIAS[1 + i % 4]) if quick else VIAS)}):
             ctl_top_case(ctx, cirq, V, I, cs, m, path, bind, rows, via)
     for I, cs, m, path, bind in (rng.sample(trest, min(len(trest), 30)) if trest else []):
         if over_time(ctx):
@@ -2543,6 +2552,9 @@ def ctl_stream(ctx, cirq, V, n):
                 mm = []
             ctl_top_case(ctx, cirq, V, {k: v for k, v in I.items() if k not in ('cs', 'via')}, I['cs'], mm, p2, b2, rows, I.get('via') or 'cco')
     ctl_model_rows(ctx, cirq, V, rows)
+    if ZERO_SKIPS['n']:
+        ctx.streams['ctl-sub:simulation-skipped(empty controlled block reads an unmeasured key)'] += ZERO_SKIPS['n']
+        ZERO_SKIPS['n'] = 0
 
 
 CTL_HEADER = 'From VF Require Import Circ.CtlSub.\n'
@@ -2631,13 +2643,19 @@ def f13_explains_ctl(ctx, cirq, V, D, m2):
     return sym_collision(inline_ctl(V, D), [dict(m2)] if m2 else []) and confirm_f13(ctx, cirq, V)
 
 
+def eff_via(V, I, cs, via):
+    """The form actually written: the layered forms need two conditions, the operation-list form a plain sub-circuit."""
+    if via in ('ifnest', 'ifcco') and len(cs) < 2 or via == 'ifops' and any(I[k] != v for k, v in V.PLAIN.items()):
+        return 'if'
+    return via
+
+
 def ctl_top_case(ctx, cirq, V, I, cs, m, path, bind, rows, via='cco'):
     built = attempt(lambda: V.sub(I))
     if built[0] != 'ok':
         return
     I = V.dsub(built[1])        # the record as the constructor normalises it (default repetition ids ...)
-    if via in ('ifnest', 'ifcco') and len(cs) < 2 or via == 'ifops' and any(I[k] != v for k, v in V.PLAIN.items()):
-        via = 'if'
+    via = eff_via(V, I, cs, via)
     kind, detail = ctl_top_defect(cirq, V, I, cs, m, path, bind, via)
     if kind == 'skip':
         return
